@@ -175,13 +175,26 @@ def unambiguous(regdefs, binary=False):
     the window-truncated padded identifier of a later register"""
     for j, r in enumerate(regdefs):
         padded = r["ident"].ljust(r["digits"])
+        if "ident_pat" in r and re.search(ident_source(r), padded[: r["digits"]]) is None:
+            return False          # a regular-expression identifier test must find the literal it is written with (reg_wf)
         for i in range(j):
             e = regdefs[i]
             if e["digits"] > r["digits"]:
                 return False      # an earlier, wider window would look into the later type's data columns
-            if e["ident"] in padded[: e["digits"]]:
+            if ("ident_pat" in e and re.search(ident_source(e), padded[: e["digits"]]) is not None) or \
+               ("ident_pat" not in e and e["ident"] in padded[: e["digits"]]):
                 return False
     return True
+
+
+def with_ident_pats(rng, regdefs, p=0.5):
+    """some identifier tests become regular expressions. READING ONLY: Register.write puts the IDENTIFIER attribute itself --
+    the expression's source text -- into the identifier columns, so on the writing side the literal r_ident of the model IS
+    that source text and reg_wf holds only for expressions that find their own source (DESIGN.md section 12)"""
+    for rd in regdefs:
+        if rd.get("delim") is None and rng.random() < p:
+            rd["ident_pat"] = gen_ident_pat(rng, rd["ident"])
+    return regdefs
 
 
 def ref_dispatch(regdefs, line):
